@@ -1,12 +1,13 @@
 # Build the simulators from /repo's current working tree.
 REPO ?= /repo
 SRC := $(REPO)/src
-B := /verif/build
+B ?= /verif/build
+SIM ?= /verif/sim
 CC := gcc -std=gnu11
 SAN ?= -fsanitize=address,undefined -fno-sanitize=shift-base -fno-sanitize-recover=undefined
 OPT ?= -O1
 CPPFLAGS := -DHAVE_CONFIG_H -D_POSIX_C_SOURCE=200809L -D_XOPEN_SOURCE=700 -D_DEFAULT_SOURCE \
-	-U_FORTIFY_SOURCE -D_FORTIFY_SOURCE=0 -I$(SRC) -I/verif/sim
+	-U_FORTIFY_SOURCE -D_FORTIFY_SOURCE=0 -I$(SRC) -I$(SIM)
 CFLAGS := $(OPT) -g -fno-omit-frame-pointer -w $(SAN)
 
 LIBSRC := instant range dt-strpf hash intern state task strlst bufpool event \
@@ -37,10 +38,10 @@ $(B)/logger.o: $(SRC)/logger.c
 $(B)/version.o: $(SRC)/version.c
 	@$(CC) $(CPPFLAGS) $(CFLAGS) -c -o $@ $<
 
-$(B)/evmodel.o: /verif/sim/evmodel.c /verif/sim/evmodel.h
+$(B)/evmodel.o: $(SIM)/evmodel.c $(SIM)/evmodel.h
 	@$(CC) $(CPPFLAGS) $(CFLAGS) -c -o $@ $<
 
-$(B)/simd.o: /verif/sim/simd.c /verif/sim/simcommon.h /verif/sim/evmodel.h $(SRC)/echsd.c $(SRC)/echsd.yucc $(wildcard $(SRC)/*.h)
+$(B)/simd.o: $(SIM)/simd.c $(SIM)/simcommon.h $(SIM)/evmodel.h $(SRC)/echsd.c $(SRC)/echsd.yucc $(wildcard $(SRC)/*.h)
 	@$(CC) $(CPPFLAGS) $(CFLAGS) -c -o $@ $<
 
 $(B)/simd: $(B)/simd.o $(B)/evmodel.o $(B)/logger.o $(LIBOBJ)
@@ -51,36 +52,36 @@ WRAP_X := time clock_gettime alarm sigaction kill getrusage setuid setgid getpwu
 	posix_spawn_file_actions_adddup2 waitpid
 WRAPFLAGS_X := $(WRAP_X:%=-Wl,--wrap=%)
 
-$(B)/simx.o: /verif/sim/simx.c /verif/sim/simcommon.h /verif/sim/evmodel.h $(SRC)/echsx.c $(SRC)/echsx.yucc $(wildcard $(SRC)/*.h)
+$(B)/simx.o: $(SIM)/simx.c $(SIM)/simcommon.h $(SIM)/evmodel.h $(SRC)/echsx.c $(SRC)/echsx.yucc $(wildcard $(SRC)/*.h)
 	@$(CC) $(CPPFLAGS) -DHAVE_VERSION_H $(CFLAGS) -c -o $@ $<
 
 $(B)/simx: $(B)/simx.o $(B)/evmodel.o $(B)/logger.o $(B)/version.o $(LIBOBJ)
 	@$(CC) $(CFLAGS) $(WRAPFLAGS_X) -o $@ $^ -lm
 
-$(B)/simp.o: /verif/sim/simp.c /verif/sim/simp_rt.h $(wildcard $(SRC)/*.h)
+$(B)/simp.o: $(SIM)/simp.c $(SIM)/simp_rt.h $(wildcard $(SRC)/*.h)
 	@$(CC) $(CPPFLAGS) $(CFLAGS) -c -o $@ $<
 
 $(B)/simp: $(B)/simp.o $(LIBOBJ)
 	@$(CC) $(CFLAGS) -o $@ $^ -lm
 
 # echsq as wire-byte producer (--dry-run), with a pinned clock
-$(B)/vq.o: /verif/sim/vq.c $(SRC)/echsq.c $(SRC)/echsq.yucc $(wildcard $(SRC)/*.h)
+$(B)/vq.o: $(SIM)/vq.c $(SRC)/echsq.c $(SRC)/echsq.yucc $(wildcard $(SRC)/*.h)
 	@$(CC) $(CPPFLAGS) -DSTANDALONE -DHAVE_VERSION_H $(CFLAGS) -c -o $@ $<
 
 $(B)/vq: $(B)/vq.o $(B)/version.o $(LIBOBJ)
 	@$(CC) $(CFLAGS) -Wl,--wrap=time -o $@ $^ -lm
 
 # UID strings with colliding task hashes (for C11)
-$(B)/vhash: /verif/sim/vhash.c $(B)/lib/hash.o
-	@gcc -O2 -w -I$(SRC) -o $@ /verif/sim/vhash.c $(SRC)/hash.c
+$(B)/vhash: $(SIM)/vhash.c $(B)/lib/hash.o
+	@gcc -O2 -w -I$(SRC) -o $@ $(SIM)/vhash.c $(SRC)/hash.c
 $(B)/uidcoll.json: $(B)/vhash
 	@$(B)/vhash > $@
 
 # libev model conformance: same scenarios on the installed libev and on the model
-$(B)/conf_real: /verif/sim/evmodel_conf.c
-	gcc -O1 -g -w -I/verif/sim -o $@ $< -lev
-$(B)/conf_model: /verif/sim/evmodel_conf.c /verif/sim/evmodel.c /verif/sim/evmodel.h
-	gcc -O1 -g -w -DCONF_MODEL -I/verif/sim -o $@ /verif/sim/evmodel_conf.c /verif/sim/evmodel.c
+$(B)/conf_real: $(SIM)/evmodel_conf.c
+	gcc -O1 -g -w -I$(SIM) -o $@ $< -lev
+$(B)/conf_model: $(SIM)/evmodel_conf.c $(SIM)/evmodel.c $(SIM)/evmodel.h
+	gcc -O1 -g -w -DCONF_MODEL -I$(SIM) -o $@ $(SIM)/evmodel_conf.c $(SIM)/evmodel.c
 conf: $(B)/conf_real $(B)/conf_model
 	@cd $(B) && timeout 60 ./conf_real > conf_real.txt && timeout 60 ./conf_model > conf_model.txt \
 	  && diff conf_real.txt conf_model.txt >/dev/null && echo "libev model conformance: OK" \
